@@ -71,6 +71,7 @@ fn later_use(mode: u8, data: &[u8], ctx: Ctx, j: usize, k: usize) -> Option<Stri
           if probe.is_ok() { return Some("probe-for-a-foreign-tag-succeeds".into()) }
           if c2.as_slice() != before.as_slice() { return Some("failed-partial-decode-loses-data".into()) } }
         if c2.decode_partial(|c| exec(&[Prog::Take { opt: false, kind: 0, exp: None, body: Body::Generic }], c, &mut l)).is_err() { return Some("partial-decode-fails".into()) }
+        if captured_mode(&c2) != mode { return Some("partial-decode-changes-the-mode-of-what-is-left".into()) }
         let after = c2.as_slice().to_vec();
         if !before.ends_with(&after) { return Some("partial-decode-overlap".into()) }
         seen.extend_from_slice(&before[..before.len() - after.len()]);
